@@ -12,6 +12,7 @@ __all__ = ['split', 'join', 'listify', 'inner_quote', 'inner_quote_info',
            'join_lines', 'local_env', 'global_env']
 
 _bad_chars = re.compile(r'[^\w@%+=:,./-]')
+_assignment_ex = re.compile(r'[A-Za-z_][A-Za-z0-9_]*=')
 
 
 def split(s, type=list, escapes=False):
@@ -99,7 +100,17 @@ def _escape_word(word):
 
 def escape_line(line, listify=False):
     if iterutils.isiterable(line):
-        return iterutils.listify(line) if listify else line
+        line = iterutils.listify(line) if listify else line
+        # A command word of the form `NAME=value` would be taken for a
+        # variable assignment by the shell; quote it so that it's run as the
+        # command it is.
+        if isinstance(line, list):
+            first = next(iter(line), None)
+            if ( isinstance(first, str) and _assignment_ex.match(first) and
+                 not _bad_chars.search(first) ):
+                line = type(line)(line)
+                line[0] = shell_literal(force_quote(first))
+        return line
 
     line = safe_str(line)
     if isinstance(line, str):
